@@ -320,8 +320,10 @@ function execute(src, env, lexNames, probeLevel, timeout) {
   let snap;
   try { snap = JSON.parse(api.snapshot(lexJson)); } catch (e) { return { broken: String(e) }; }
   comp.push(probeComp);
-  return { obs: { calls: snap.calls, globals: snap.globals, comp: comp.slice(0, 3).concat([probeComp]) }, tdz };
+  return { obs: { calls: snap.calls, globals: snap.globals, comp: comp.slice(0, 3).concat([probeComp]) }, tdz: tdz || !!snap.tdz };
 }
+
+function withDepth(n, fn) { return n <= 0 ? fn() : [withDepth(n - 1, fn), n, n + 1, n + 2][0]; }
 
 function sameObs(a, b) { return JSON.stringify(a) === JSON.stringify(b); }
 
@@ -357,7 +359,11 @@ function observePair(c) {
     if (a.timeout) { res.push({ id: c.id, env: k, skip: 'input timeout' }); continue; }
     if (a.broken) { res.push({ id: c.id, env: k, skip: 'input observation broken' }); continue; }
     if (a.tdz) { res.push({ id: c.id, env: k, skip: 'input TDZ' }); continue; }
-    const a2 = execute(c.in, env, info.topLex, probe, T(T_IN * 4));
+    // determinism check: the second run of the input happens with less stack headroom (300 extra frames below it), so that
+    // programs whose observation depends on WHERE the engine's stack overflows (catching RangeError of unbounded recursion) -
+    // an engine resource limit, not program semantics; the minified text has other frame sizes - are recognised as
+    // nondeterministic and stay outside the domain
+    const a2 = withDepth(300, () => execute(c.in, env, info.topLex, probe, T(T_IN * 4)));
     if (!a2.obs || !sameObs(a.obs, a2.obs)) { res.push({ id: c.id, env: k, skip: 'input nondeterministic' }); continue; }
     let b = execute(c.out, env, info.topLex, probe, T(T_IN * 2));
     if (b.timeout) b = execute(c.out, env, info.topLex, probe, T(T_OUT));
@@ -368,6 +374,9 @@ function observePair(c) {
     else bobs = b.obs;
     res.push({ id: c.id, env: k, skip: '', nfree: env.bindings.length, a: a.obs, b: bobs });
   }
+  // "programs whose input already throws a TDZ ReferenceError" are outside the domain: if the input raised one under ANY
+  // environment (top level, host callback or probe call), the whole pair is skipped
+  if (res.some((r) => r.skip === 'input TDZ')) return [{ id: c.id, env: -1, skip: 'input TDZ' }];
   return res;
 }
 
